@@ -43,6 +43,11 @@ const (
 	fmSilent
 	fmHeadUserNumber
 	fmArrayTop
+	fmCaseVariantEmptyDigest // "U1" with the digest of the empty string
+	fmEmptyStringDigest      // known user, digest of ""
+	fmUnknownEmptyDigest     // unknown user, digest of ""
+	fmOtherUsersDigest       // known user, digest of another operator's password
+	fmCleartextPassword      // known user, password itself instead of its digest
 	fmKinds
 )
 
@@ -95,7 +100,32 @@ func (c06) Gen(seed uint64, run int, tier string) *Plan {
 			}
 		default:
 			if p.Policy.Name != "atomic" {
-				p.Actions = append(p.Actions, Action{Kind: "par", A: 2 + r.Intn(3)})
+				switch r.Intn(3) {
+				case 0:
+					p.Actions = append(p.Actions, Action{Kind: "par", A: 2 + r.Intn(3)})
+				case 1:
+					// several first messages race: a correct one next to wrong ones
+					ks := []int{fmCorrect, r.Intn(fmKinds), r.Intn(fmKinds)}
+					for i := len(ks) - 1; i > 0; i-- {
+						j := r.Intn(i + 1)
+						ks[i], ks[j] = ks[j], ks[i]
+					}
+					p.Actions = append(p.Actions, Action{Kind: "par", A: 3})
+					for sl, k := range ks {
+						p.Actions = append(p.Actions, Action{Kind: "conn", A: sl, C: k})
+					}
+				case 2:
+					if cfg.Service != nil {
+						// two service connections authenticate at the same time: the right password
+						// next to a wrong, missing or empty one
+						ks := []int{0, []int{1, 5, 6}[r.Intn(3)]}
+						sl := r.Intn(2)
+						p.Actions = append(p.Actions, Action{Kind: "sclose", A: 0}, Action{Kind: "sclose", A: 1}, Action{Kind: "par", A: 2},
+							Action{Kind: "sconn", A: sl, C: ks[0]}, Action{Kind: "sconn", A: 1 - sl, C: ks[1]})
+					} else {
+						p.Actions = append(p.Actions, Action{Kind: "par", A: 2 + r.Intn(3)})
+					}
+				}
 			} else {
 				p.Actions = append(p.Actions, Action{Kind: "bcast", C: 0})
 			}
@@ -185,6 +215,17 @@ func (st *c06State) firstMessage(kind int, user, password string) ([]byte, bool)
 		v = map[string]any{"Head": map[string]any{"Event": world.EvInit, "User": 7}, "Body": map[string]any{"SubEvent": world.InitOAuth, "Info": map[string]any{"User": user, "Password": digest(password)}}}
 	case fmArrayTop:
 		return []byte(`[1,2,3]`), true
+	case fmCaseVariantEmptyDigest:
+		up := strings.ToUpper(user)
+		v = world.MakePkg(world.EvInit, world.InitOAuth, up, map[string]any{"User": up, "Password": digest("")})
+	case fmEmptyStringDigest:
+		v = auth(map[string]any{"User": user, "Password": digest("")})
+	case fmUnknownEmptyDigest:
+		v = world.MakePkg(world.EvInit, world.InitOAuth, "mallory", map[string]any{"User": "mallory", "Password": digest("")})
+	case fmOtherUsersDigest:
+		v = auth(map[string]any{"User": user, "Password": digest("pw-neo")})
+	case fmCleartextPassword:
+		v = auth(map[string]any{"User": user, "Password": password})
 	}
 	b, _ := json.Marshal(v)
 	return b, true
@@ -450,6 +491,11 @@ func (st *c06State) inject(a Action) {
 		}
 		ws.SendText(msg)
 		res.Probe(fmt.Sprintf("service-first-kind-%d", a.C))
+	case "sclose":
+		if s := st.ssocks[a.A]; s != nil && !s.closed {
+			s.ws.C.PeerClose()
+			s.closed = true
+		}
 	case "sfollow":
 		s := st.ssocks[a.A]
 		if s == nil || s.closed {
